@@ -108,8 +108,8 @@ static void Array_New(var self, var args) {
   struct Array* a = self;
   a->type   = cast(get(args, $I(0)), Type);
   a->tsize  = Array_Size_Round(size(a->type));
-  a->nitems = len(args)-1;
-  a->nslots = a->nitems;
+  a->nitems = 0;
+  a->nslots = len(args)-1;
   
   if (a->nslots is 0) {
     a->data = NULL;
@@ -124,9 +124,11 @@ static void Array_New(var self, var args) {
   }
 #endif
   
-  for(size_t i = 0; i < a->nitems; i++) {
+  /* items count once they are built: a constructor that fails half way leaves a consistent Array behind */
+  for(size_t i = 0; i < a->nslots; i++) {
     Array_Alloc(a, i);
     assign(Array_Item(a, i), get(args, $I(i+1)));  
+    a->nitems = i+1;
   }
   
 }
